@@ -669,6 +669,37 @@ fn transit<'tcx>(
         let body: &Body<'tcx> = tcx.instance_mir(e.def);
         let cx = Ctx { tcx, env, inst: e };
         for bb in body.basic_blocks.iter() {
+            // fn items taken as values (`Argument::new_display::<T>` stores `<T as Display>::fmt`, `map(T::from)`, ...)
+            let mut consts: Vec<Instance<'tcx>> = Vec::new();
+            let mut on_op = |op: &Operand<'tcx>| {
+                if let Operand::Constant(c) = op {
+                    if let ty::FnDef(did, args) = cx.subst(c.const_.ty()).kind() {
+                        if let Ok(Some(ci)) = Instance::try_resolve(tcx, env, *did, args) {
+                            consts.push(ci);
+                        }
+                    }
+                }
+            };
+            for st in &bb.statements {
+                if let StatementKind::Assign(b) = &st.kind {
+                    visit_rvalue_operands(&b.1, &mut on_op);
+                }
+            }
+            if let TerminatorKind::Call { args, .. } = &bb.terminator().kind {
+                for a in args.iter() {
+                    on_op(&a.node);
+                }
+            }
+            for ci in consts {
+                let ck = tcx.crate_name(ci.def_id().krate);
+                if ws.contains(ck.as_str()) {
+                    if outset.insert(ci) {
+                        out.push(ci);
+                    }
+                } else if mentions_ws(tcx, ws, ci.args) && visited.insert(ci) {
+                    stack.push(ci);
+                }
+            }
             if let TerminatorKind::Call { func, .. } = &bb.terminator().kind {
                 let fty = cx.subst(func.ty(&body.local_decls, tcx));
                 if let ty::FnDef(cdid, cargs) = fty.kind() {
